@@ -379,6 +379,7 @@ def run_check(prop, argv=None):
             by_key.setdefault(key, (case, msg))
     reported_known = {}
     new_violations = []
+    skipped_keys = []
     deadline = time.time() + (120 if tier == 'quick' else 900)
     for key, (case, msg) in by_key.items():
         kk = key_matches(key, known)
@@ -387,6 +388,7 @@ def run_check(prop, argv=None):
             reported_known[kk] += 1
             continue
         if len(new_violations) >= 5:
+            skipped_keys.append(key)
             continue
         small = shrink(prop, case, key, deadline=deadline)
         os.makedirs(REPLAY_DIR, exist_ok=True)
@@ -413,6 +415,9 @@ def run_check(prop, argv=None):
         print('  key=%s' % key)
         print('  %s' % msg)
 
+    if skipped_keys:
+        print('further violation keys (not minimised): %s' % ' '.join(
+            skipped_keys[:40]))
     wall = time.time() - t0
     distinct = len(agg['sigs'])
     faults = {k[6:]: v for k, v in agg['stats'].items()
